@@ -317,6 +317,13 @@ def cli_route():
                     cp = configparser.ConfigParser(interpolation=None)
                     with open(sol) as fh:
                         cp.read_file(fh)
+                    stamp = cp.get('habutax', 'tax_year', fallback=None)
+                    if stamp != str(year) or not cp.has_option('1040', '15') or not cp.has_option('1040', '16'):
+                        out.append((f'C07|{year}|cli-route|{lab}|year',
+                                    f'habutax {" ".join(a for a in argv if not a.startswith("/"))}: names year {year}; the solution is stamped tax_year={stamp!r} and '
+                                    f'{"has" if cp.has_option("1040", "16") else "lacks"} line 16 (the in-memory solve of {year} has {r.solution["1040"].get("16")})',
+                                    dict(kind='cli-route', year=year, wages=wages, label=lab)))
+                        continue
                     ti, tax = float(cp['1040']['15']), float(cp['1040']['16'])
                     exp = expected(year, cp['1040']['filing_status'], ti)
                     _ROUTE['line16'] += 1
